@@ -799,9 +799,11 @@ pub fn check_c12_input(b: &[u8], l: &mut Local, coll: &Collector) {
         if !(li == s.as_str()) {
             v(l, "c12.eq_str", "LanguageIdentifier != its own canonical text", format!("true for {}", s), "false".into());
         }
-        for other in [s.to_ascii_uppercase(), format!("{}-", s), format!("{}-x", s), s[..s.len() - 1].to_string(), s.replace('-', "_")] {
-            if other != s && li == other.as_str() {
-                v(l, "c12.eq_str", "LanguageIdentifier == a text that is not its canonical text", "false".into(), format!("true for {:?}", other));
+        for other in crate::spaces::eq_probes(&s) {
+            match guard_total(|| li == other.as_str()) {
+                Ok(false) => {}
+                Ok(true) => v(l, "c12.eq_str", "LanguageIdentifier == a text that is not its canonical text", "false".into(), format!("true for {:?}", other)),
+                Err(p) => v(l, "c12.eq_str", "LanguageIdentifier == &str panics", "false".into(), format!("PANIC({}) for {:?}", p, other)),
             }
         }
         if let Out::Ok(again) = inputs::parse_langid(s.as_bytes()) {
